@@ -784,7 +784,11 @@ def make_algorithms(case, probe):
         split = alg.get("split")
         if split:
             split = {k: tuple(v) for k, v in split.items()}
-        inner = BatchProcessing(alg.get("p", 1), alg.get("min", 1), split)
+        # (no third argument when there is no split: the default-constructed
+        # policy is what users build)
+        inner = (BatchProcessing(alg.get("p", 1), alg.get("min", 1), split)
+                 if split else
+                 BatchProcessing(alg.get("p", 1), alg.get("min", 1)))
     elif kind in ("queue", "advqueue"):
         planning = BatchPlanning('batch', delay_model)
         inner = QueueProcessing()
